@@ -131,6 +131,13 @@ def splits(base, tier):
                         if has[2]:
                             files[p2.replace(".", "/")] = m2
                     out.append(({"assign": assign, "topo": topo, "paths": pathvar, "mod_positions": positions}, files))
+                    if topo == "chain" and pathvar in ("flat", "deep"):
+                        # diamond: main imports m2 itself as well, before or after the module that imports it too
+                        m2mod = (p1.rsplit(".", 1)[0] + ".m2") if "." in p1 else "m2"
+                        for where in ("first", "last"):
+                            f2 = dict(files)
+                            f2["main"] = ([("mod", m2mod)] + main) if where == "first" else (main + [("mod", m2mod)])
+                            out.append(({"assign": assign, "topo": "diamond-" + where, "paths": pathvar, "mod_positions": positions}, f2))
     return out
 
 
@@ -262,7 +269,7 @@ def run(tier):
                     continue
                 for kind in ERRORS:
                     cases.append((bname, label, files, (modname, kind)))
-    r.bounds = {"splits": nsplit, "error_cases": len(cases) - nsplit, "bases": list(BASES), "topologies": ["star", "chain"], "paths": list(PATHS) if tier != "quick" else ["flat", "deep", "samebase", "mixed"]}
+    r.bounds = {"splits": nsplit, "error_cases": len(cases) - nsplit, "bases": list(BASES), "topologies": ["star", "chain", "diamond (chain + main importing the shared module itself, first or last)"], "paths": list(PATHS) if tier != "quick" else ["flat", "deep", "samebase", "mixed"]}
     from .c08 import WorkDirs
 
     with WorkDirs():
